@@ -128,6 +128,13 @@ def entry_functions(ctx):
     for q in ('CellWrapper.__call__', 'Cell._args', 'format_output',
               'RangesAssembler.__call__', 'InvRangesAssembler.__call__'):
         add(p.func('formulas/cell.py', q), 'dispatch-time callable')
+    # every callable object the package defines can be installed in the graph
+    # as a node function or filter: its __call__ runs during calculations
+    for c in sorted(p.classes.values(), key=lambda c: c.fq):
+        m = c.methods.get('__call__')
+        if m is not None:
+            add(m, 'callable object (%s instances are node functions/filters)'
+                % c.name)
     for q in ('ExcelModel.calculate', 'ExcelModel.__call__',
               'ExcelModel.compile', 'ExcelModel.to_dict'):
         add(p.func('formulas/excel/__init__.py', q),
